@@ -167,6 +167,8 @@ pub struct State {
     insn_limit: Option<usize>,
     heap_limit: Option<usize>,
     stack_limit: Option<usize>,
+    #[cfg(feature = "verif_hooks")]
+    verif_watch: verif::VerifWatch,
     // expose for rrlog debug
     pub reverse_log: Option<Vec<ReverseStep>>,
     stdout: Option<String>,
@@ -1057,6 +1059,8 @@ impl State {
     fn fetch_and_run(&mut self) -> Xresult {
         let ip = self.ip();
         self.insn_meter_increase()?;
+        #[cfg(feature = "verif_hooks")]
+        self.verif_watch.on_insn(self.data_stack.len(), self.heap.len());
         match &self.code[ip] {
             Opcode::Nop => {
                 self.next_ip();
